@@ -87,11 +87,11 @@ def parse_text(text, feature_kw="Feature", rule_kw="Rule", sc_kw="Scenario"):
             continue
         m = RE_HOOK.match(line)
         if m:
-            out.append({"k": "hook", "which": m.group(1), "where": m.group(2), "diag": []})
+            out.append({"k": "hook", "which": m.group(1), "where": m.group(2), "diag": [], "col": len(line) - len(line.lstrip(" "))})
             continue
         m = RE_STEP.match(line)
         if m:
-            out.append({"k": "step", "glyph": m.group(1), "bg": m.group(2) == "> ", "text": m.group(3), "diag": []})
+            out.append({"k": "step", "glyph": m.group(1), "bg": m.group(2) == "> ", "text": m.group(3), "diag": [], "col": len(line) - len(line.lstrip(" "))})
             continue
         if line.startswith("Failed to parse: "):
             out.append({"k": "parse_error", "msg": line[len("Failed to parse: "):], "diag": []})
@@ -101,7 +101,7 @@ def parse_text(text, feature_kw="Feature", rule_kw="Rule", sc_kw="Scenario"):
             continue
         s = line.lstrip(" ")
         if s.startswith(rule_kw + ": ") and (not out or out[-1]["k"] not in ("step", "hook", "parse_error") or not line.startswith("      ")):
-            out.append({"k": "rule", "name": s[len(rule_kw) + 2:], "diag": []})
+            out.append({"k": "rule", "name": s[len(rule_kw) + 2:], "diag": [], "col": len(line) - len(s)})
             continue
         if s.startswith(sc_kw + ": ") and len(line) - len(s) <= 4:
             name = s[len(sc_kw) + 2:]
@@ -109,7 +109,7 @@ def parse_text(text, feature_kw="Feature", rule_kw="Rule", sc_kw="Scenario"):
             m = RE_RETRY.match(name)
             if m:
                 name, retry = m.group(1), (int(m.group(2)), int(m.group(3)))
-            out.append({"k": "scenario", "name": name, "retry": retry, "diag": []})
+            out.append({"k": "scenario", "name": name, "retry": retry, "diag": [], "col": len(line) - len(s)})
             continue
         if out:
             out[-1]["diag"].append(line)
@@ -128,7 +128,7 @@ def expected_text(tree):
             else:
                 r = it["retry"]
                 shown = (r[0], r[0] + r[1]) if r and r[0] > 0 else None
-                exp.append(("scenario", it["name"], shown))
+                exp.append(("scenario", it["name"], shown, it["rule"] is not None))
                 exp += expected_text_entries(it)
     return exp
 
@@ -171,6 +171,7 @@ def oracle_basic(rec, tree):
     gi = 0
     pend_got, pend_exp = [], []
     where = "?"
+    body_col = None
 
     def flush():
         nonlocal pend_got, pend_exp
@@ -186,6 +187,8 @@ def oracle_basic(rec, tree):
             ei += 1
             continue
         if g is not None and g["k"] in ("step", "hook"):
+            if body_col is not None and g.get("col") != body_col and not any(p[0] == "basic:indentation" for p in probs):
+                probs.append(("basic:indentation", f"{where}: {g['k']} line {g.get('text') or g.get('which')!r} printed at column {g.get('col')}, expected {body_col}"))
             pend_got.append(g)
             gi += 1
             continue
@@ -198,6 +201,16 @@ def oracle_basic(rec, tree):
             probs.append(("basic:structure", f"reported {g['k']} {g.get('name')!r} retry={g.get('retry')}, stream has {e}"))
             break
         where = f"{e[0]} {e[1]!r}"
+        # indentation is the only carrier of rule membership in the plain report (layout of the
+        # crate's golden files): feature and rule headers at column 0, a scenario header at 2
+        # (feature level) or 4 (inside a rule), its steps and failed hooks one column further
+        if e[0] == "rule" and g.get("col") != 0:
+            probs.append(("basic:indentation", f"{where} printed at column {g.get('col')}, rule headers belong at column 0"))
+        if e[0] == "scenario":
+            want = 4 if e[3] else 2
+            if g.get("col") != want:
+                probs.append(("basic:indentation", f"{where} ({'inside a rule' if e[3] else 'feature level'}) printed at column {g.get('col')}, expected {want}"))
+            body_col = want + 1
         ei += 1
         gi += 1
     probs += flush()
@@ -334,6 +347,19 @@ def oracle_json(rec, tree):
             probs.append(("json:parse-errors", f"error object does not state {e['inner']!r}"))
     # a feature object is required for every feature with at least one step / hook result
     feats = [f for f in tree["features"] if any(e["t"] in ("step", "hook") for a in f["attempts"] for e in a["entries"])]
+    # the format identifies a feature by (uri, name): features equal in both (only possible without
+    # a path) are one object holding the scenarios of all of them
+    merged, index = [], {}
+    for f in feats:
+        k = (f["name"], norm_path(f["path"]))
+        if k in index:
+            index[k]["attempts"] = index[k]["attempts"] + f["attempts"]
+        else:
+            g = dict(f)
+            g["attempts"] = list(f["attempts"])
+            index[k] = g
+            merged.append(g)
+    feats = merged
     feat_objs = [o for o in feat_objs if any(el["steps"] or el.get("before") or el.get("after") for el in o["elements"])] if len(feat_objs) != len(feats) else feat_objs
     if len(feat_objs) != len(feats):
         kind = "json:feature-objects-pathless" if any(f["path"] is None for f in feats) and all(o.get("uri") is None for o in feat_objs if [x for x in feat_objs if x["name"] == o["name"] and x.get("uri") == o.get("uri")].__len__() > 1) else "json:feature-objects"
